@@ -135,17 +135,54 @@ class Space:
         self._B[key] = seq
         return seq
 
-    def programs(self, n: int):
+    def programs(self, n):
+        if n == 'E':
+            return E_PROGRAMS
         return self.B(n, False)
 
 
 # ---- rendering ----------------------------------------------------------
 
+def rx(e) -> str:
+    """Expression text."""
+    if e[0] == 'n':
+        return e[1]
+    if e[0] == 'op':
+        return e[1].format(*[rx(sub) for sub in e[2:]])
+    return '[' + rx(e[1]) + ''.join(f' for {text} in {rx(it)}' for _, text, it in e[2]) + ']'
+
+
+def subblocks(st):
+    op = st[0]
+    if op in ('let', 'rete'):
+        return ()
+    if op in XCOMPOUND:
+        return st[2:]
+    return st[1:]
+
+
 def render_block(block, indent: int, out: list):
     pad = ' ' * indent
     for st in block:
         op = st[0]
-        if op.startswith('ret_'):
+        if op == 'let':
+            out.append(f'{pad}{st[1]} = {rx(st[2])}')
+        elif op == 'rete':
+            out.append(f'{pad}return {rx(st[1])}')
+        elif op in ('if1x', 'ifex'):
+            out.append(f'{pad}if {rx(st[1])}:')
+            render_block(st[2], indent + 4, out)
+            if op == 'ifex':
+                out.append(pad + 'else:')
+                render_block(st[3], indent + 4, out)
+        elif op == 'forx':
+            out.append(f'{pad}for z in {rx(st[1])}:')
+            render_block(st[2], indent + 4, out)
+        elif op == 'whilex':
+            out.append(f'{pad}while {rx(st[1])}:')
+            out.append(pad + '    k = k + 1')
+            render_block(st[2], indent + 4, out)
+        elif op.startswith('ret_'):
             out.append(f'{pad}return {op[4:]}')
         elif op in SIMPLE:
             out.append(pad + TEXT[op])
@@ -173,24 +210,112 @@ def size(block) -> int:
     n = 0
     for st in block:
         n += 1
-        for sub in st[1:]:
+        for sub in subblocks(st):
             n += size(sub)
     return n
 
 
-def to_json(block):
-    return [[st[0]] + [to_json(b) for b in st[1:]] for st in block]
+def to_json(x):
+    """Programs are nested tuples of strings; JSON form = the same nesting as lists."""
+    return [to_json(y) for y in x] if isinstance(x, tuple) else x
 
 
-def from_json(block):
-    return tuple((st[0],) + tuple(from_json(b) for b in st[1:]) for st in block)
+def from_json(x):
+    return tuple(from_json(y) for y in x) if isinstance(x, list) else x
 
 
 def constructs(block, acc=None) -> set:
     acc = set() if acc is None else acc
     for st in block:
-        if st[0] in COMPOUND:
+        if st[0] in COMPOUND or st[0] in XCOMPOUND:
             acc.add(st[0])
-        for sub in st[1:]:
+        for sub in subblocks(st):
             constructs(sub, acc)
     return acc
+
+
+# ---- family E: comprehensions as sub-expressions --------------------------
+#
+# Expressions: ('n', name) | ('op', format, e...) (operands evaluated left to right) |
+# ('comp', elt, ((target names, target text, iterable), ...)).
+# Statements: ('let', name, e) | ('rete', e) | ('if1x', cond, body) | ('ifex', cond, then, else) |
+# ('forx', iterable, body) (target z) | ('whilex', cond, body) (with the built-in k = k + 1).
+# E = prefix x comprehension x shape x probe name: the probe R is read outside the comprehension --
+# a later/earlier operand or argument of the same expression, the arms of an `if` whose condition
+# holds the comprehension, after that `if`, in/after a loop whose header holds it, after the
+# assignment, and as the element of an enclosing comprehension.
+
+def N(v):
+    return ('n', v)
+
+
+def OP(fmt, *es):
+    return ('op', fmt) + es
+
+
+def COMP(elt, *gens):
+    return ('comp', elt, gens)
+
+
+def ADD(a, b):
+    return OP('{} + {}', a, b)
+
+
+_X = (('x',), 'x', N('us'))
+_ENUM = (('i', 'x'), 'i, x', OP('enumerate({})', N('us')))
+_INNER = COMP(N('x'), _X)
+
+E_COMPS = (
+    COMP(N('x'), _X),                                                   # [x for x in us]
+    COMP(N('x'), _ENUM),                                                # tuple target
+    COMP(ADD(N('x'), N('y')), _X, (('y',), 'y', N('us'))),              # two generators
+    COMP(N('y'), _X, (('y',), 'y', OP('[{}]', N('x')))),                # later iterable reads an earlier target
+    COMP(ADD(N('x'), N('y')), _X, (('y',), 'y', N('y'))),               # later iterable reads its own target
+    COMP(ADD(N('x'), N('us')), _X, (('us',), 'us', N('us'))),           # ... which shadows an argument
+    COMP(ADD(N('x'), N('i')), _X, (('i', 'us'), 'i, us', OP('enumerate({})', N('us')))),   # ... in a tuple target
+    COMP(ADD(N('x'), N('u')), _X, (('u',), 'u', N('us'))),              # later target shadows an argument
+    COMP(N('x'), _X, _X),                                               # same target twice
+    COMP(ADD(N('x'), N('y')), (('y',), 'y', _INNER)),                   # outer element reads the inner variable
+    COMP(N('y'), (('y',), 'y', _INNER)),                                # nested, well-scoped
+    COMP(N('u'), (('u',), 'u', N('us'))),                               # target shadows an argument
+    COMP(N('us'), (('us',), 'us', N('us'))),                            # target shadows its own iterable
+    COMP(ADD(N('x'), N('y')), (('x', 'y'), 'x, y', OP('[({}, {})]', N('u'), N('v')))),     # tuple target over a literal
+)
+E_PROBES = ('x', 'y', 'i', 'u')
+E_PREFIXES = ((), (('let', 'x', N('u')),), (('let', 'y', N('u')),), (('let', 'i', N('u')),))
+XCOMPOUND = ('if1x', 'ifex', 'forx', 'whilex')
+
+
+def _shapes(C, R):
+    SUM, LEN = OP('sum({})', C), OP('len({}) > 0', C)
+    KLT = OP('{} < len({})', N('k'), C)
+    bu, bR, au = ('let', 'b', N('u')), ('let', 'b', R), ('a=u',)
+    return (
+        (('let', 'b', ADD(SUM, R)), ('ret_b',)),
+        (('let', 'b', ADD(R, SUM)), ('ret_b',)),
+        (('rete', OP('max({}, {})', SUM, R)),),
+        (('ifex', LEN, (bR,), (bu,)), ('ret_b',)),
+        (('ifex', LEN, (bu,), (bR,)), ('ret_b',)),
+        (('ifex', LEN, (au,), (au,)), ('rete', R)),
+        (('if1x', LEN, (('rete', R),)), ('ret_u',)),
+        (('if1x', LEN, (('pass',),)), ('rete', R)),
+        (('forx', C, (('rete', R),)), ('ret_u',)),
+        (('forx', C, (('pass',),)), ('rete', R)),
+        (('k=0',), ('whilex', KLT, (bR,)), ('ret_u',)),
+        (('k=0',), ('whilex', KLT, (('pass',),)), ('rete', R)),
+        (('let', 'b', C), ('rete', R)),
+        (('rete', OP('sum({})', COMP(ADD(R, N('w')), (('w',), 'w', C)))),),
+    )
+
+
+def _family_e():
+    out = []
+    for pre in E_PREFIXES:
+        for C in E_COMPS:
+            for r in E_PROBES:
+                for sh in _shapes(C, N(r)):
+                    out.append(pre + sh)
+    return list(dict.fromkeys(out))          # R = u makes a few shapes coincide
+
+
+E_PROGRAMS = _family_e()
